@@ -682,7 +682,7 @@ Print Assumptions C03_digit_rs_matches_model.
    one-line functions delegates to breaks this theorem ---- *)
 From Bnum.Model Require Import Digit Core Shift AddSub Mul Div Bits Pow.
 From Bnum.Generated Require Import Glue.
-From Bnum.Proofs Require Import GlueTie.
+From Bnum.Proofs Require Import GlueTieCommon GlueTieC03.
 Theorem C03_glue_rs_matches_model :
   (forall w a b, Glue.U_div_rem w a b = U_div_rem w a b) /\
   (forall w a b, Glue.U_checked_div w a b = U_checked_div w a b) /\
